@@ -485,7 +485,7 @@ func runC07N(env *Env, s Scenario) {
 	if nclose > 0 && nr.Tr.CloseCount() == 0 {
 		env.Fail("transport-not-closed", "", "Close returned but the transport's Close was never called")
 	}
-	if !sc.Uncontrol && sc.F.CloseMode != "stuck" {
+	if sc.F.CloseMode != "stuck" {
 		if leaked := BubbleStacks(); len(leaked) > 0 {
 			site := leaked[0]
 			if i := strings.Index(site, " in "); i >= 0 {
